@@ -124,6 +124,9 @@ Corrupt(pr, o) ==
     [] o.corr = "drop" /\ o.i \in 1..n -> SubSeq(pr, 1, o.i - 1) \o SubSeq(pr, o.i + 1, n)
     [] o.corr = "extend" /\ o.i \in 1..(n + 1) ->
          SubSeq(pr, 1, o.i - 1) \o <<IF o.j \in 1..n THEN pr[o.j] ELSE X(2)>> \o SubSeq(pr, o.i, n)
+    \* an element that is no 32-byte hash at all (the element type of a host vector is not checked at the contract's
+    \* boundary): for the property it is a foreign element like any other
+    [] o.corr = "illtyped" /\ o.i \in 1..(n + 1) -> SubSeq(pr, 1, o.i - 1) \o <<X(2)>> \o SubSeq(pr, o.i, n)
     [] o.corr = "interior" /\ o.i \in 1..n -> SubSeq(pr, o.i + 1, n)
     [] OTHER -> pr
 
